@@ -8,6 +8,7 @@ import gen_kern     # noqa: F401
 import gen_ser      # noqa: F401
 import gen_alias    # noqa: F401
 import gen_iter     # noqa: F401
+import gen_frozen   # noqa: F401
 
 
 def generate(suite_name, seed, scale=1.0, tier="quick"):
